@@ -34,7 +34,7 @@ def run(tier, replay=None):
     ngrid, nseq, nimg = (3000, 20000, 48) if tier == "quick" else (60000, 600000, 1500)
     imgs = c16.images(nimg, seed + 3, d)
     argsets = [["c03", seed * 1000 + w, ngrid // W + 1, nseq // W + 1, "@OUT"] + imgs[w::W] for w in range(W)]
-    res = common.run_selfgen(exe, argsets, tag="c03", timeout=4 * 3600)
+    res = common.run_selfgen(exe, argsets, tag="c03", timeout=900 if tier == "quick" else 4 * 3600)
     table = [[0, 0, 0] for _ in range(16)]
     seen = [0] * 256
     tot = {}
